@@ -71,6 +71,7 @@ pub fn run(prop: &str, leg: &str, ctx: &Ctx, rep: &mut Report) -> bool {
         #[cfg(feature = "pq")]
         ("C16", "interop") => c16::interop(ctx, rep),
         ("C10", "transcripts") => c10::transcripts(ctx, rep),
+        ("C10", "ffsampling-trace") => c10::trace(ctx, rep),
         ("C17", "synthetic") => c17::synthetic(ctx, rep),
         ("C17", "captured") => c17::captured(ctx, rep),
         ("C09", "blocks") => c09::blocks(ctx, rep),
@@ -79,8 +80,10 @@ pub fn run(prop: &str, leg: &str, ctx: &Ctx, rep: &mut Report) -> bool {
         ("C09", "in-situ") => c09::in_situ(ctx, rep),
         ("C11", "tables") => c11::tables(ctx, rep),
         ("C11", "products") => c11::products(ctx, rep),
+        ("C11", "cross-size") => c11::cross_size(ctx, rep),
         ("C13", "table") => c13::table(ctx, rep),
         ("C13", "accuracy") => c13::accuracy(ctx, rep),
+        ("C13", "cross-size") => c13::cross_size(ctx, rep),
         ("C14", "differential") => c14::differential(ctx, rep),
         ("C12", "exhaustive") => c12::exhaustive(ctx, rep),
         _ => return false,
